@@ -18,8 +18,8 @@ RULE = ("per-run seed -> a lexicon of words of length 1-5 over a 2-3 letter alph
         "single-segment path walks a Levenshtein automaton over the term cursor, the multi-segment path filters "
         "expand_prefix by a distance function: two independent implementations selected by layout), optionally with "
         "deletions + 12 probes (word present / absent / one edit or transposition away / shorter than the prefix; d in "
-        "0..3; prefix 0..2). terms_within must be the same set in both layouts and equal the set under the documented "
-        "(Damerau-Levenshtein) distance; FuzzyTerm must match exactly the documents containing such terms; suggest must "
+        "0..3; prefix 0..2). terms_within must be the same set in both layouts, lie between the sets under the strictest and the most "
+        "permissive documented reading of the distance, and among live terms equal the set under exactly one reading; FuzzyTerm must match exactly the documents containing such terms; suggest must "
         "return existing terms within the distance, never the queried word, ordered by distance then frequency. "
         "Non-trivial = both layouts built and >=1 probe with a non-empty expected set; distinct = SHA-256 over both event logs.")
 ASSUMPTIONS = ["documented distance = Damerau-Levenshtein (optimal string alignment), as the terms_within docstring states",
